@@ -176,6 +176,10 @@ theorem FClaim.childWakeNextPc (s s1 : State) (f : Frame) (rest : List Frame) (t
   · trivial
   · unfold childLoopStartPc; split <;> trivial
 
+theorem FClaim.childLoopStartPc (s : State) (cs : List NoteId) (f : Frame) (rest : List Frame)
+    (top : Top) : FClaim s (Note.childLoopStartPc cs f rest top) := by
+  unfold Note.childLoopStartPc; split <;> trivial
+
 theorem FClaim.freeLoopStartPc (s : State) (cs : List NoteId) (n : NoteId) (par : Option NoteId) :
     FClaim s (Note.freeLoopStartPc cs n par) := by
   cases cs <;> trivial
@@ -223,12 +227,13 @@ theorem FClaim.actor {s s' : State} {e : Event} (hs : step s e = .ok s') (a : Ti
   all_goals (try subst ha)
   all_goals (try (rw [‹s.pc _ = _›] at hc))
   all_goals (try (simp only [setPc_pc, upd_same, afterDeadline_pc, afterNotify_pc, childReturn_pc,
-    childWakeNext_pc, freeLoopStart_pc, enterChild_pc, leave_pc, addUser_pc, markCalled_pc,
+    childWakeNext_pc, childScanStart_pc, freeLoopStart_pc, enterChild_pc, leave_pc, addUser_pc, markCalled_pc,
     markFreeing_pc, setAfter_pc, pushObs_pc, publish_pc, delUser_pc, markBorn_pc, allocNote_pc]))
   all_goals (try trivial)
   all_goals (try (exact FClaim.afterNotifyPc _ _ _))
   all_goals (try (exact FClaim.childReturnPc _ _ _ _))
   all_goals (try (exact FClaim.childWakeNextPc _ _ _ _ _))
+  all_goals (try (exact FClaim.childLoopStartPc _ _ _ _ _))
   all_goals (try (exact FClaim.freeLoopStartPc _ _ _ _))
   all_goals (try (exact hc))
   all_goals (try (rw [‹s.pc _ = _›]; trivial))
